@@ -53,6 +53,42 @@ def F6():
         except LatexWalkerParseError as e:
             assert e.pos is not None and e.pos <= len(s), (s, e.pos)
 
+def mkctx(macros):
+    from pylatexenc import macrospec
+    db = macrospec.LatexContextDb()
+    db.add_context_category('c', macros=[macrospec.MacroSpec(n, a) for n, a in macros], environments=[], specials=[])
+    return db
+def F13():
+    db = mkctx([('vv', 'v')])
+    s = '\\vv{a{b}c}d'
+    from pylatexenc.latexwalker import LatexWalkerParseError
+    r1 = parse(s, False, db)[1][0]
+    r2 = parse(s, False, db)[1][0]
+    a1 = r1[0].nodeargd.argnlist[0].pos_end; a2 = r2[0].nodeargd.argnlist[0].pos_end
+    assert a1 == a2 == 10, 'first parse: argument ends at %r, second parse: %r' % (a1, a2)
+def F16():
+    db = mkctx([('vv', ['v()'])])
+    from pylatexenc.latexwalker import LatexWalkerParseError
+    try:
+        parse('\\vv[x]', False, db)
+    except LatexWalkerParseError:
+        pass
+def F20():
+    w, (nl, _) = parse('a\\\\*', False)
+    a = nl[1].nodeargd.argnlist
+    assert a[0] is not None and nl[1].pos_end == 4, 'star consumed (macro ends at %r) but reported as %r' % (nl[1].pos_end, a[0])
+def F21():
+    db = mkctx([('emph', '{')])
+    from pylatexenc.latexwalker import LatexWalkerParseError
+    try:
+        parse('\\emph\\unk', False, db)
+    except LatexWalkerParseError:
+        pass
+def F25():
+    db = mkctx([('m', '*')])
+    w, (nl, _) = parse('\\m**', False, db)
+    assert nl[0].pos_end == 3, 'macro with one optional star consumed up to %r' % nl[0].pos_end
+
 ALL = dict((k, v) for k, v in list(globals().items()) if k[0] == 'F' and k[1:].isdigit())
 if __name__ == '__main__':
     bad = 0
